@@ -1,4 +1,7 @@
-import MxModel.Proofs.ExecSound
+import MxModel.Proofs.ExecSoundTop
+import MxModel.Proofs.ExecTaint
+import MxModel.Proofs.ExecGhostOps
+import MxModel.Proofs.ExecLog
 import MxModel.Exec.Expr
 /-!
 # C01 – memoisation is transparent
@@ -9,115 +12,115 @@ functions).  All theorems quantify over every environment `env` – every formul
 including formulas that catch their callees' failures – over every state reachable with
 held values (`Good`), over every element and every depth.
 
-`LimitNeverCaught` is the hypothesis `….hit = false`: the recursion limit was not hit during
-the evaluation (not even inside a `try`).  Without it the statement is false of the model
-and of modelx (`full_statement_fails`, known finding C01-caught-deep).
+`LimitNotCaughtInThisCall env n s` is the hypothesis of the `_partial` theorems: the recursion limit
+is not hit during THIS evaluation (not even inside a `try`) – formally, the evaluation started from
+`s` with the ghost flag `hit` lowered ends with the flag down.  It says nothing about earlier
+evaluations: the flag is a ghost (`limit_flag_is_ghost`, `limit_flag_is_ghost_history`: no function
+of the mechanism reads it; results and states are the same whatever it is), so a depth error in an
+earlier call does not take later calls out of the theorems' scope.  Without the hypothesis the
+statement is false of the model and of modelx for formulas that CATCH the depth error
+(`full_statement_fails`, known finding C01-caught-deep); for formulas that let it propagate
+(`DeepPropagatesEnv`) or that handle no failure at all (`NoCatchEnv`) no hypothesis about the limit
+is needed (`eval_value_is_denotation_deep_propagates_partial`, `…_nocatch_partial`).
 -/
 namespace MxModel.C01
 open MxModel.Exec
 
 variable (env : Env) (inp : Node → Option Val)
 
-/-- **Values equal uncached evaluation (partial: `LimitNeverCaught`).**  From any state in
-which every held value is the spec's, whatever was computed before and in whatever order, a
-top-level call returns exactly the spec's result – value, or `FormulaError` carrying the
-spec's error – and every value held afterwards is again the spec's. -/
+/-- **The limit flag is a ghost**: a top-level call from a state in which the flag is up (an
+earlier evaluation hit the limit) returns the same result and ends in the same state, flag up, as
+from the state with the flag as it was. -/
+theorem limit_flag_is_ghost (n : Node) (s : St) (b : Bool) :
+    evalTop env n (s.orHit b) = ((evalTop env n s).1, (evalTop env n s).2.orHit b) :=
+  evalTop_orHit env n s b
+
+/-- …and so is every operation of the edit language (`C02.Op`: evaluations, value edits, reference
+edits, formula / flag edits, cells deleted and created, limit changes, administrative calls): a
+whole history run with the flag up gives the same definitions and the same state, flag up. -/
+theorem limit_flag_is_ghost_history (ops : List C02.Op) (env : Env) (s : St) (b : Bool) :
+    C02.run (env, s.orHit b) ops = ((C02.run (env, s) ops).1, (C02.run (env, s) ops).2.orHit b) :=
+  C02.run_orHit ops env s b
+
+/-- the hypothesis in its old form (flag down before and after the call) implies the new one -/
+theorem limit_not_caught_of_flag (n : Node) (s : St) (h0 : s.hit = false)
+    (hend : (evalTop env n s).2.hit = false) : LimitNotCaughtInThisCall env n s :=
+  LimitNotCaughtInThisCall.of_flag h0 hend
+
+/-- **Values equal uncached evaluation (partial: `LimitNotCaughtInThisCall`).**  From any state in
+which every held value is the spec's, whatever was computed before and in whatever order – and
+whatever happened to the limit in earlier evaluations –, a top-level call that does not hit the
+limit returns exactly the spec's result – value, or `FormulaError` carrying the spec's error – and
+every value held afterwards is again the spec's. -/
 theorem eval_value_is_denotation_partial (n : Node) (s : St)
-    (hg : Good env inp s) (h0 : s.hit = false)
-    (hend : (evalTop env n s).2.hit = false) :
+    (hg : Good env inp s) (hlim : LimitNotCaughtInThisCall env n s) :
     (∀ v, (evalTop env n s).1 = .ok v → Den env inp n (.ok v)) ∧
     (∀ e tb, (evalTop env n s).1 = .formulaError e tb → Den env inp n (.err e)) ∧
-    Good env inp (evalTop env n s).2 := by
-  unfold evalTop at hend ⊢
-  cases hl : (if env.cached n.1 = true then lookup s.data n else none) with
-  | some v =>
-    simp only [hl] at hend ⊢
-    refine ⟨?_, ?_, hg⟩
-    · intro w hw
-      cases hw
-      split at hl
-      · rename_i hc; exact hg.sound n v hc hl
-      · cases hl
-    · intro e tb h; cases h
-  | none =>
-    simp only [hl] at hend ⊢
-    have hin : s.hit = false → env.cached n.1 = true → inp n = none := by
-      intro _ hc
-      simp only [hc, if_true] at hl
-      cases hi : inp n with
-      | none => rfl
-      | some v => have := hg.inputsHeld n v hc hi; rw [hl] at this; cases this
-    have hok := runN_ok env inp (env.maxdepth + 1) n s (fun _ => hg) hin
-    generalize runN env (env.maxdepth + 1) n s = p at hok hend
-    obtain ⟨r, s1⟩ := p
-    cases r with
-    | ok v =>
-      simp only [] at hend ⊢
-      have := hok.2 hend
-      refine ⟨?_, ?_, ⟨this.1.sound, this.1.inputsHeld⟩⟩
-      · intro w hw; cases hw; exact this.2
-      · intro e tb h; cases h
-    | err e =>
-      simp only [] at hend ⊢
-      have := hok.2 hend
-      refine ⟨?_, ?_, ⟨this.1.sound, this.1.inputsHeld⟩⟩
-      · intro w hw; cases hw
-      · intro e' tb h; cases h; exact this.2
+    Good env inp (evalTop env n s).2 :=
+  evalTop_sound env inp n s hg hlim
 
 /-- **Conversely**: if pure evaluation of `n` stays within the configured limit, the call
-returns exactly that result and the limit is never hit – whatever is cached. -/
+returns exactly that result and does not hit the limit – whatever is cached, whatever earlier calls
+did. -/
 theorem eval_returns_denotation (n : Node) (s : St) (r : Res)
-    (hg : Good env inp s) (h0 : s.hit = false)
+    (hg : Good env inp s)
     (hd : denoteN env inp (env.maxdepth + 1) n = (r, false)) :
-    (evalTop env n s).2.hit = false ∧
+    LimitNotCaughtInThisCall env n s ∧
     (∀ v, r = .ok v → (evalTop env n s).1 = .ok v) ∧
-    (∀ e, r = .err e → ∃ tb, (evalTop env n s).1 = .formulaError e tb) := by
-  unfold evalTop
-  cases hl : (if env.cached n.1 = true then lookup s.data n else none) with
-  | some v =>
-    simp only []
-    have hden : Den env inp n (.ok v) := by
-      split at hl
-      · rename_i hc; exact hg.sound n v hc hl
-      · cases hl
-    have := Den_det env inp n _ _ hden ⟨_, hd⟩
-    subst this
-    refine ⟨h0, ?_, ?_⟩
-    · intro w hw; cases hw; rfl
-    · intro e he; cases he
-  | none =>
-    simp only []
-    have hin : env.cached n.1 = true → inp n = none := by
-      intro hc
-      simp only [hc, if_true] at hl
-      cases hi : inp n with
-      | none => rfl
-      | some v => have := hg.inputsHeld n v hc hi; rw [hl] at this; cases this
-    obtain ⟨hr, hh⟩ := runN_complete env inp (env.maxdepth + 1) n s r hg h0 hin hd
-    generalize runN env (env.maxdepth + 1) n s = p at hr hh
-    obtain ⟨r1, s1⟩ := p
-    simp only [] at hr hh
-    subst hr
-    cases r1 with
-    | ok v =>
-      refine ⟨hh, ?_, ?_⟩
-      · intro w hw; cases hw; rfl
-      · intro e he; cases he
-    | err e =>
-      refine ⟨hh, ?_, ?_⟩
-      · intro w hw; cases hw
-      · intro e' he; cases he; exact ⟨_, rfl⟩
+    (∀ e, r = .err e → ∃ tb, (evalTop env n s).1 = .formulaError e tb) :=
+  evalTop_complete env inp n s r hg hd
 
 /-- **The answer does not depend on what was computed before**: two states (two histories of
 earlier evaluations) that both hold only correct values give the same result. -/
 theorem order_independent (n : Node) (s s' : St)
-    (hg : Good env inp s) (hg' : Good env inp s') (h0 : s.hit = false) (h0' : s'.hit = false)
-    (he : (evalTop env n s).2.hit = false) (he' : (evalTop env n s').2.hit = false)
+    (hg : Good env inp s) (hg' : Good env inp s')
+    (he : LimitNotCaughtInThisCall env n s) (he' : LimitNotCaughtInThisCall env n s')
     (v v' : Val) (hv : (evalTop env n s).1 = .ok v) (hv' : (evalTop env n s').1 = .ok v') : v = v' := by
-  have a := (eval_value_is_denotation_partial env inp n s hg h0 he).1 v hv
-  have b := (eval_value_is_denotation_partial env inp n s' hg' h0' he').1 v' hv'
+  have a := (eval_value_is_denotation_partial env inp n s hg he).1 v hv
+  have b := (eval_value_is_denotation_partial env inp n s' hg' he').1 v' hv'
   have := Den_det env inp n _ _ a b
   cases this; rfl
+
+/-- **No hypothesis about the limit for formulas that let `DeepReferenceError` propagate**
+(partial: `DeepPropagatesEnv` – formulas may handle any other failure of their callees, but a depth
+error received from a callee ends the formula with that depth error; the complement is exactly the
+known finding C01-caught-deep).  Whatever the limit is and wherever it is hit: every value a
+top-level call returns is the spec's, an error it carries is the depth error or the spec's, and every
+value held afterwards is the spec's – an uncaught depth error rolls the whole chain back and leaves
+the values of the sub-evaluations that completed. -/
+theorem eval_value_is_denotation_deep_propagates_partial (hdp : DeepPropagatesEnv env) (n : Node) (s : St)
+    (hg : Good env inp s) :
+    (∀ v, (evalTop env n s).1 = .ok v → Den env inp n (.ok v)) ∧
+    (∀ e tb, (evalTop env n s).1 = .formulaError e tb → e = .deep ∨ Den env inp n (.err e)) ∧
+    Good env inp (evalTop env n s).2 :=
+  have h := evalTop_taint env inp (fun e => e = .deep) rfl hdp n s hg
+  ⟨h.2.1, h.2.2, h.1⟩
+
+/-- **…and for formulas that handle no failure** (partial: `NoCatchEnv`, the regime of C02): every
+value returned is the spec's and the state stays correct after ANY call – returned, failed with any
+error at any depth, or stopped by the limit anywhere. -/
+theorem eval_value_is_denotation_nocatch_partial (hnc : NoCatchEnv env) (n : Node) (s : St)
+    (hg : Good env inp s) :
+    (∀ v, (evalTop env n s).1 = .ok v → Den env inp n (.ok v)) ∧ Good env inp (evalTop env n s).2 :=
+  have h := evalTop_taint env inp (fun _ => True) trivial (taintClosedEnv_of_noCatch env hnc) n s hg
+  ⟨h.2.1, h.1⟩
+
+/-- **After any history**: in every state reachable by the thirteen-operation edit language of C02
+(evaluations – returned, failed, stopped by the limit –, value / reference / formula / flag edits,
+cells deleted and created, limit changes; regime `WF`: terminating, `NoCatch`, statically scoped),
+a top-level call returns the spec's value under the CURRENT definitions and inputs – with no
+hypothesis about the limit, in this call or any earlier one – and, when this call does not hit the
+limit, a `FormulaError` carrying the spec's error. -/
+theorem eval_after_any_history_partial (lt : Node → Node → Prop) (ho : StrictOrder lt) (env0 : Env)
+    (hw0 : C02.WF env0 lt) (ops : List C02.Op) (hadm : C02.Admissible lt (env0, {}) ops) (n : Node) :
+    (∀ v, (evalTop (C02.run (env0, {}) ops).1 n (C02.run (env0, {}) ops).2).1 = .ok v →
+      Den (C02.run (env0, {}) ops).1 (inpOf (C02.run (env0, {}) ops).2) n (.ok v)) ∧
+    (LimitNotCaughtInThisCall (C02.run (env0, {}) ops).1 n (C02.run (env0, {}) ops).2 →
+      ∀ e tb, (evalTop (C02.run (env0, {}) ops).1 n (C02.run (env0, {}) ops).2).1 = .formulaError e tb →
+      Den (C02.run (env0, {}) ops).1 (inpOf (C02.run (env0, {}) ops).2) n (.err e)) := by
+  obtain ⟨hci, hw⟩ := C02.run_ci lt ho ops (env0, {}) hw0 (CI.empty env0 lt) hadm
+  exact ⟨(eval_value_is_denotation_nocatch_partial _ _ hw.noCatch n _ hci.good).1,
+    fun hlim => (eval_value_is_denotation_partial _ _ n _ hci.good hlim).2.1⟩
 
 /-- **While an element holds a value its formula is never run again**: a top-level call for a
 held element of a cached cells returns the held value and changes nothing – in particular
@@ -144,6 +147,94 @@ theorem held_never_reexecuted (ef : Node → St → Res × St) (n : Node) (s : S
   · unfold St.addEdge St.addNode; simp only []; repeat' split
     all_goals rfl
   · rfl
+
+/-! ### computed once: the execution log
+
+`St.log` (ghost) gets an entry for every formula execution (`CallStack.append`).  Regime: the graph
+invariant `GI` of C08 (terminating programs, `Ranked`), idle executor – every reachable state. -/
+
+/-- **While an element holds a value its formula is never run**: the executions `new` that a
+top-level call makes – at any depth, hits and misses, failed or not – contain no element of a cached
+cells that held a value when the call started. -/
+theorem held_elements_never_executed (lt : Node → Node → Prop) (ho : StrictOrder lt) (hr : Ranked env lt)
+    (s : St) (g : GI env lt s) (hst : s.stack = []) (hidx : s.idx = []) (n : Node) :
+    ∃ new, (evalTop env n s).2.log = new ++ s.log ∧
+      ∀ m ∈ new, env.cached m.1 = true → lookup s.data m = none := by
+  obtain ⟨new, rb, h1, h2, _⟩ := evalTop_log ho hr g hst hidx n
+  exact ⟨new, h1, h2⟩
+
+/-- **Every execution either fails or is THE execution that stores the element's value**: for an
+element `m` of a cached cells, the number of its executions during one top-level call equals the
+number of its frames that were rolled back (`rb`: `_eval_formula`'s roll-back list, before
+`_start_exec` clears it) plus one if `m` acquired its value in this call.  (A failed element holds
+nothing; a handler or a `finally` block that calls it again executes it again.) -/
+theorem every_execution_fails_or_stores (lt : Node → Node → Prop) (ho : StrictOrder lt) (hr : Ranked env lt)
+    (s : St) (g : GI env lt s) (hst : s.stack = []) (hidx : s.idx = []) (n : Node) :
+    ∃ (new : List Node) (rb : List (Node × Nat)), (evalTop env n s).2.log = new ++ s.log ∧
+      ((if env.cached n.1 = true then lookup s.data n else none) = none →
+        (runN env (env.maxdepth + 1) n s).2.rolledback = s.rolledback ++ rb) ∧
+      ∀ m, env.cached m.1 = true →
+        new.count m = (rb.map (·.1)).count m + newly s (evalTop env n s).2 m := by
+  obtain ⟨new, rb, h1, _, h3, h4, _⟩ := evalTop_log ho hr g hst hidx n
+  exact ⟨new, rb, h1, h4, h3⟩
+
+/-- **Computed once**: when formulas handle no failure (`NoCatchEnv`) and the call returns, no element
+of a cached cells is executed twice, and the executed ones are exactly those that acquired their
+value in this call. -/
+theorem computed_once_nocatch (lt : Node → Node → Prop) (ho : StrictOrder lt) (hr : Ranked env lt)
+    (hnc : NoCatchEnv env) (s : St) (g : GI env lt s) (hst : s.stack = []) (hidx : s.idx = []) (n : Node)
+    (v : Val) (hv : (evalTop env n s).1 = .ok v) :
+    ∃ new, (evalTop env n s).2.log = new ++ s.log ∧
+      ∀ m, env.cached m.1 = true → new.count m ≤ 1 ∧
+        (m ∈ new ↔ lookup s.data m = none ∧ (lookup (evalTop env n s).2.data m).isSome = true) := by
+  obtain ⟨new, rb, h1, _, h3, _, h5⟩ := evalTop_log ho hr g hst hidx n
+  have hrb : rb = [] := h5 hnc v hv
+  subst hrb
+  refine ⟨new, h1, fun m hc => ?_⟩
+  have := h3 m hc
+  simp only [List.map_nil, List.count_nil, Nat.zero_add] at this
+  unfold newly at this
+  constructor
+  · rw [this]; split <;> omega
+  · rw [← List.count_pos_iff, this]
+    split
+    · rename_i h; simp [h]
+    · rename_i h; simp [h]
+
+/-- **…across a history**: in every state reachable by the thirteen-operation language of C02, an
+evaluation executes only elements that hold no value at that moment – an element that was computed
+is executed again only after an edit or a clear discarded its value. -/
+theorem executed_again_only_after_cleared (lt : Node → Node → Prop) (ho : StrictOrder lt) (env0 : Env)
+    (hw0 : C02.WF env0 lt) (ops : List C02.Op) (hadm : C02.Admissible lt (env0, {}) ops) (n : Node) :
+    ∃ new, (evalTop (C02.run (env0, {}) ops).1 n (C02.run (env0, {}) ops).2).2.log =
+        new ++ (C02.run (env0, {}) ops).2.log ∧
+      ∀ m ∈ new, (C02.run (env0, {}) ops).1.cached m.1 = true → lookup (C02.run (env0, {}) ops).2.data m = none := by
+  obtain ⟨hci, hw⟩ := C02.run_ci lt ho ops (env0, {}) hw0 (CI.empty env0 lt) hadm
+  exact held_elements_never_executed _ lt ho hw.ranked _ hci.gi hci.quiet.stack hci.quiet.idx n
+
+/-! Non-vacuity.  `c0 = c1() + c1()`, `c1 = 2`: `c1` is executed once, the second call is a hit.
+`c2 = try: c3() except: (try: c3() except: 0)`, `c3 = raise`: `c3` is executed twice – both frames are
+rolled back, it never holds a value – which is why "executed at most once" needs `NoCatch`. -/
+def oCells : CellId → Option Expr
+  | 0 => some (.add (.call 1 []) (.call 1 []))
+  | 1 => some (.lit 2)
+  | 2 => some (.try_ (.call 3 []) .all (.try_ (.call 3 []) .all (.lit 0)))
+  | 3 => some (.raise kValue)
+  | _ => none
+
+def oEnv : Env where
+  formula := fun n => match oCells n.1 with
+    | some e => formulaOf (fun c => (oCells c).map (fun _ => 0)) e n.2
+    | none => .raise (.user kName)
+  cached := fun _ => true
+  allowNone := fun _ => false
+  refs := fun _ => .none
+  maxdepth := 10
+
+example : (evalTop oEnv (0, []) {}).1 = .ok (.int 4) ∧ (evalTop oEnv (0, []) {}).2.log = [(1, []), (0, [])] ∧
+    (evalTop oEnv (2, []) {}).1 = .ok (.int 0) ∧
+    (evalTop oEnv (2, []) {}).2.log = [(3, []), (3, []), (2, [])] ∧
+    ((runN oEnv 11 (2, []) {}).2.rolledback.map (·.1)) = [(3, []), (3, [])] := by decide
 
 /-! ### the full statement is false: a formula that catches the depth-limit error
 
@@ -178,6 +269,64 @@ theorem full_statement_fails :
 /-! Non-vacuity: the hypotheses of the partial theorem are met by a non-trivial reachable
 state (the same program under a sufficient limit), where the value is the spec's. -/
 example : (evalTop { wEnv with maxdepth := 5 } (0, []) {}).1 = .ok (.int 5) ∧
-    (evalTop { wEnv with maxdepth := 5 } (0, []) {}).2.hit = false := by decide
+    LimitNotCaughtInThisCall { wEnv with maxdepth := 5 } (0, []) {} := by
+  unfold LimitNotCaughtInThisCall; decide
+
+/-! …and by a state reached AFTER an evaluation that hit the limit (flag up for good): `c1()` under
+a limit of one frame fails with the depth error; the next call `c2()` does not hit the limit, the
+theorem applies to it although `hit = true` in its start state. -/
+def wEnv0 : Env := { wEnv with maxdepth := 0 }
+
+example : (evalTop wEnv0 (1, []) {}).1 = .formulaError .deep [(1, [])] ∧
+    (evalTop wEnv0 (1, []) {}).2.hit = true ∧
+    LimitNotCaughtInThisCall wEnv0 (2, []) (evalTop wEnv0 (1, []) {}).2 ∧
+    (evalTop wEnv0 (2, []) (evalTop wEnv0 (1, []) {}).2).1 = .ok (.int 5) := by
+  unfold LimitNotCaughtInThisCall; decide
+
+/-! Non-vacuity for `DeepPropagatesEnv`: `chain(k) = chain(k-1) + 1` whose handler turns EVERY
+failure of the callee except the depth error into `-1`.  Under a limit of three frames `chain(5)`
+fails with the depth error, `chain(2)` then evaluates to 2 – both covered without any hypothesis
+about the limit. -/
+def pK : Res → Prog
+  | .ok (.int i) => .ret (.int (i + 1))
+  | .ok .none => .raise (.user 1)
+  | .err .deep => .reraise .deep
+  | .err _ => .ret (.int (-1))
+
+def pEnv : Env where
+  formula := fun n => match n.2 with
+    | [.int k] => if 0 < k then .call (0, [.int (k - 1)]) pK else .ret (.int 0)
+    | _ => .raise (.user 0)
+  cached := fun _ => true
+  allowNone := fun _ => false
+  refs := fun _ => none
+  maxdepth := 3
+
+theorem pEnv_deepPropagates : DeepPropagatesEnv pEnv := by
+  intro n
+  show TaintClosed _ (match n.2 with
+    | [.int k] => if 0 < k then Prog.call (0, [.int (k - 1)]) pK else .ret (.int 0)
+    | _ => .raise (.user 0))
+  split
+  · split
+    · refine ⟨?_, ?_⟩
+      · intro e he; subst he; exact rfl
+      · intro r
+        match r with
+        | .ok (.int i) => trivial
+        | .ok .none => trivial
+        | .err .deep => trivial
+        | .err (.user _) => trivial
+        | .err .noneRet => trivial
+    · trivial
+  · trivial
+
+example : (evalTop pEnv (0, [.int 5]) {}).1 =
+      .formulaError .deep [(0, [.int 5]), (0, [.int 4]), (0, [.int 3]), (0, [.int 2])] ∧
+    (evalTop pEnv (0, [.int 2]) (evalTop pEnv (0, [.int 5]) {}).2).1 = .ok (.int 2) := by decide
+
+example : Good pEnv (fun _ => none) (evalTop pEnv (0, [.int 5]) {}).2 :=
+  (eval_value_is_denotation_deep_propagates_partial pEnv _ pEnv_deepPropagates _ _
+    ⟨by intro n v _ hl; simp at hl, by intro n v _ hi; cases hi⟩).2.2
 
 end MxModel.C01
